@@ -11,6 +11,7 @@ From SV Require Import proofs.CleanProofs.
 From SV Require Import proofs.TrellisDDPath.
 From SV Require Import proofs.CleanDirs.
 From SV Require Import proofs.CleanOptional.
+From SV Require Import proofs.CleanLinks.
 Import ListNotations.
 Open Scope N_scope.
 
@@ -175,6 +176,25 @@ Proof. exact supply_keeps_cleanup_memory_refuted. Qed.
 Theorem C07_supply_keeps_cleanup_memory_fixed :
   keep_volatile_on_supply = true -> C07_supply_keeps_cleanup_memory.
 Proof. exact supply_keeps_cleanup_memory_fixed. Qed.
+
+(* Finding (symlink-output-left-dangling, findings.d/C07-symlink-output-left-dangling.json): "whatever is queued, can
+   be unlinked and -- unless volatile -- reads as exactly the recorded hash when the cleanup starts, is gone when
+   remove_deletable_files ends".  True for regular files whatever the shape of the loop (C07_orphans_removed);
+   FALSE for an output that a step made as a symbolic link to another queued output whose name sorts after the
+   link's: the single loop removes the target first, the link then hashes as "unknown", is skipped and stays behind,
+   dangling, for good.  TRUE for every kind of path when every decision is taken before the first removal (two
+   loops; flag rdf_decide_first regenerated from the AST of remove_deletable_files). *)
+Definition C07_unmodified_queued_removed : Prop :=
+  forall q f p v, qfile_get q p = Some v ->
+    (v = None \/ exists h, v = Some h /\ stat f p = SFile h) ->
+    is_unlinkable (fs_get f p) = true ->
+    fs_get (r_fs (remove_deletable_files q f)) p = None.
+
+Theorem C07_unmodified_queued_removed_refuted : rdf_decide_first = false -> ~ C07_unmodified_queued_removed.
+Proof. exact unmodified_queued_removed_refuted. Qed.
+
+Theorem C07_unmodified_queued_removed_fixed : rdf_decide_first = true -> C07_unmodified_queued_removed.
+Proof. exact unmodified_queued_removed_two_pass. Qed.
 
 (* Non-vacuity: root -> step s (detached) creates step t creates file o, s has o as amended input
    (a cycle s -> t -> o -> s), plus a detached orphan file x. The cycle survives, x is deleted and
